@@ -92,6 +92,9 @@ func c08Build(cs c08Case, uploadID string, metaLimit int) (rq *s3x.Req, verdict 
 		case "key-1024":
 			k = "p/" + strings.Repeat("k", 200) + "/" + strings.Repeat("m", 200) + "/" + strings.Repeat("n", 200) + "/" + strings.Repeat("o", 200) + "/"
 			k += strings.Repeat("q", 1024-len(k))
+		case "key-long-segment":
+			k = []string{"fresh-dir/sub/" + strings.Repeat("s", 256+cs.K%300), "fresh-dir/" + strings.Repeat("s", 256+cs.K%300) + "/leaf", strings.Repeat("s", 300)}[cs.K%3]
+			verdict = either
 		case "no-key":
 			withKey = false
 			verdict = mustReject
@@ -215,6 +218,12 @@ func c08Build(cs c08Case, uploadID string, metaLimit int) (rq *s3x.Req, verdict 
 		key = "d/" + strings.Repeat("k", 200) + "/" + strings.Repeat("m", 200) + "/" + strings.Repeat("n", 200) + "/" + strings.Repeat("o", 200) + "/"
 		key += strings.Repeat("p", n-len(key))
 		rq.Path = "/bk0/" + key
+	case "key-long-segment":
+		// inside S3's key domain (<= 1024 bytes), but with a path segment no directory entry of a
+		// real file system can hold: a backend may refuse it - without leaving anything behind
+		key = []string{"fresh-dir/sub/" + strings.Repeat("s", 256+cs.K%300), "fresh-dir/" + strings.Repeat("s", 256+cs.K%300) + "/leaf", strings.Repeat("s", 300)}[cs.K%3]
+		rq.Path = "/bk0/" + key
+		verdict = either
 	case "key-too-long":
 		n := 1025 + cs.K%2000
 		key = "d/" + strings.Repeat("k", 200) + "/" + strings.Repeat("m", 200) + "/" + strings.Repeat("n", 200) + "/" + strings.Repeat("o", 200) + "/" + strings.Repeat("p", 200) + "/"
@@ -284,7 +293,7 @@ func c08Build(cs c08Case, uploadID string, metaLimit int) (rq *s3x.Req, verdict 
 	}
 	if cs.Kind == "part" {
 		switch cs.Fault {
-		case "key-1023", "key-1024", "key-too-long", "meta-small", "meta-around", "meta-too-large", "meta-many-too-large":
+		case "key-1023", "key-1024", "key-too-long", "key-long-segment", "meta-small", "meta-around", "meta-too-large", "meta-many-too-large":
 			// not faults of a part upload (the key/metadata belong to the initiation)
 			verdict = either
 		}
@@ -304,11 +313,11 @@ func setHeader(rq *s3x.Req, k, v string) {
 
 var c08Faults = map[string][]string{
 	"put": {"none", "md5-correct", "md5-wrong", "md5-badb64", "md5-15bytes", "md5-17bytes", "md5-empty", "md5-hex", "short-body", "short-body-all",
-		"reader-fails", "key-1023", "key-1024", "key-too-long", "meta-small", "meta-around", "meta-too-large", "meta-many-too-large", "no-content-length", "te-chunked"},
+		"reader-fails", "key-1023", "key-1024", "key-too-long", "key-long-segment", "meta-small", "meta-around", "meta-too-large", "meta-many-too-large", "no-content-length", "te-chunked"},
 	"chunked": {"none", "md5-correct", "md5-wrong", "md5-badb64", "short-body", "reader-fails", "decoded-len-larger", "decoded-len-smaller", "decoded-len-garbage",
 		"key-too-long", "meta-too-large"},
 	"part": {"none", "md5-correct", "md5-wrong", "md5-badb64", "md5-15bytes", "md5-17bytes", "md5-empty", "short-body", "short-body-all", "reader-fails", "no-content-length", "te-chunked"},
-	"post": {"none", "key-too-long", "key-1024", "no-key", "no-file", "two-files", "truncated-form", "short-body"},
+	"post": {"none", "key-too-long", "key-1024", "key-long-segment", "no-key", "no-file", "two-files", "truncated-form", "short-body"},
 }
 
 // c08Snapshot captures everything the statement says must stay the same.
@@ -338,6 +347,16 @@ func c08Snapshot(st *backends.Stack, keys []string, uploadID, uploadKey string) 
 		}
 		sort.Strings(es)
 		fmt.Fprintf(&sb, "LIST -> %v\n", es)
+	}
+	// the '/'-delimited listing (the file system backends build it from directories)
+	dr := s3x.Do(st.Handler, &s3x.Req{Method: "GET", Path: "/bk0", Query: s3x.Q("delimiter", "/")})
+	var dd s3x.ListDoc
+	if err := dr.XML(&dd); err != nil || dr.Status != 200 {
+		fmt.Fprintf(&sb, "LIST / -> %s\n", dr)
+	} else {
+		ps := dd.Prefixes()
+		sort.Strings(ps)
+		fmt.Fprintf(&sb, "LIST / -> %d contents, prefixes %v\n", len(dd.Contents), ps)
 	}
 	if uploadID != "" {
 		r := s3x.Do(st.Handler, &s3x.Req{Method: "GET", Path: "/bk0/" + uploadKey, Query: s3x.Q("uploadId", uploadID)})
@@ -557,6 +576,18 @@ func c08Run(t *testing.T, c *evid.Collector) {
 			for _, kf := range [][2]string{{"put", "md5-wrong"}, {"put", "short-body"}, {"put", "reader-fails"}, {"put", "none"}, {"chunked", "md5-wrong"}, {"chunked", "short-body"},
 				{"chunked", "decoded-len-smaller"}, {"chunked", "decoded-len-larger"}, {"part", "md5-wrong"}, {"part", "short-body"}} {
 				all = append(all, c08Case{Backend: k, Prior: "present", Kind: kf[0], Fault: kf[1], Body: bodySpec{N: n, Seed: 11}, K: n - 7})
+			}
+		}
+	}
+	for _, k := range kinds {
+		for _, kind := range []string{"put", "chunked", "post"} {
+			for kk := 0; kk < 3; kk++ {
+				if kind == "chunked" {
+					continue // c08Faults lists it for put and post
+				}
+				for _, prior := range []string{"absent", "present"} {
+					all = append(all, c08Case{Backend: k, Prior: prior, Kind: kind, Fault: "key-long-segment", Body: bodies[0], K: kk})
+				}
 			}
 		}
 	}
